@@ -904,3 +904,51 @@ Proof.
   - vm_compute. reflexivity.
   - vm_compute. reflexivity.
 Qed.
+
+(* ---------- completeness (JWS): a suitable key is accepted ---------- *)
+Lemma get_op_key_pass op k :
+  (exists r, find_op op = Some r) -> ops_include op k -> (op_private op = true -> k_priv k = true) ->
+  get_op_key op k = Ok (native_of k (op_private op)).
+Proof.
+  intros [r F] I P. unfold get_op_key, op_private in *. rewrite F in *.
+  rewrite (check_key_op_pass op k r I F P). reflexivity.
+Qed.
+
+Definition siglen_ok (k : key) (siglen : N) : Prop :=
+  forall c, find_curve (k_crv k) = Some c -> siglen = 2 * ((cv_bits c + 7) / 8).
+
+Theorem jws_complete e alg r k siglen :
+  key_wf k -> find_jws alg = Some r -> alg <> "none" ->
+  jws_suitable alg (jws_is_sign e) k -> check_alg alg k = Ok tt -> siglen_ok k siglen ->
+  jws_run prim_std e SrcKey alg k true siglen = Ok tt.
+Proof.
+  intros W F Hnone (U & K & O) A L. specialize (O Hnone). destruct O as [Oi Op].
+  pose proof op_private_values as (Ps & Pv & _).
+  unfold jws_run. rewrite F. apply find_name in F. destruct F as [Hin Hn].
+  apply String.eqb_eq in Hn. subst alg.
+  cbn [guess_key bind]. rewrite (check_use_pass _ _ U). cbn [bind].
+  rewrite A.
+  apply jws_rows in Hin.
+  destruct r as [nm fam kt rec hs cv pd]. cbn [ja_name ja_family ja_key_type ja_curve] in *.
+  simpl in Hin.
+  repeat (destruct Hin as [Hin | Hin]; [ inversion Hin; subst nm fam kt cv; clear Hin | ]);
+    try contradiction; try (exfalso; apply Hnone; reflexivity);
+    unfold jws_kind_ok in K; cbn in K;
+    (destruct (jws_is_sign e) eqn:Es;
+    [ pose proof (get_op_key_pass "sign" k find_op_sign Oi (fun _ => Op eq_refl)) as G; rewrite Ps in G
+    | pose proof (get_op_key_pass "verify" k find_op_verify Oi
+                    (fun Q => False_ind _ (Bool.diff_false_true (eq_trans (eq_sym Pv) Q)))) as G;
+      rewrite Pv in G ]);
+    unfold jws_check_key_type, jws_sign, jws_verify, ec_check_key, curve_name, curve_key_size, native_of in *;
+    try (destruct K as [K1 K2]); try rewrite K in *; try rewrite K1 in *;
+    destruct (jws_has_type_gate e), (jws_has_alg_gate e);
+    cbn -[get_op_key N.mul N.div N.add N.eqb find_curve]; rewrite ?G; cbn -[N.mul N.div N.add N.eqb find_curve];
+    try reflexivity.
+  (* EC verify: the signature length, and EdDSA: the two curves *)
+  all: try (rewrite K2 in *; cbn -[N.mul N.div N.add N.eqb];
+            match goal with |- context [N.eqb siglen ?x] =>
+              replace (N.eqb siglen x) with true
+                by (symmetry; apply N.eqb_eq; apply L; rewrite K2; vm_compute; reflexivity) end;
+            cbn -[get_op_key]; rewrite ?G; reflexivity).
+  all: try (destruct K2 as [K2 | K2]; rewrite K2; reflexivity).
+Qed.
